@@ -12,6 +12,7 @@ SPEC = {
         "leave and re-enter single quotes; (d) to_cmdline_lossy appends the escaped command, then for each argument "
         "in iteration order one space and the escaped argument; Pipeline's Debug joins the stages' command lines in "
         "order with \" | \"; Exec's Debug prints to_cmdline_lossy."
+        " The quoted form is recognised as replace+format or as a single pass decided per character arm (' -> splice, everything else copied, quotes bracket the word); the 13 alphabetic shell reserved words are never emitted bare (R19.5, reported D13 on the pinned tree)."
     ),
     "not_decided": "the round trip through an actual sh for all Unicode strings (value level); the KEY=value environment prefix rendering.",
     "trusted_base": ["rustc MIR", "POSIX shell quoting rules (oracle table SAFE in the rule)", "str::replace, Iterator::all, slice::join (std)",
@@ -134,6 +135,104 @@ def accepted(fn):
     return lits, preds, unconditioned
 
 
+def quoted_replace_format(ctx, prog, de, T, s_param, rp):
+    """the quoted form as  format!("'{}'", s.replace("'", SPLICE))"""
+    ok = len(rp) == 1
+    detail = "expected one str::replace"
+    if ok:
+        a = [M.noref(T.operand(x)) for x in rp[0][1]["args"]]
+        pat = a[1][1] if a[1][0] == "const" else None
+        rep = a[2][1] if a[2][0] == "const" else None
+        ok = a[0] == s_param and pat == "'" and rep in SPLICES
+        detail = "replace(%r, %r) on %s (pattern must be \"'\", replacement one of %s)" % (pat, rep, M.term_str(a[0]), list(SPLICES))
+    ctx.ob("R19.3", "embedded-quote-splice", ok, de.loc(rp[0][0] if rp else 0), detail)
+    fa = de.calls_to(lambda f: M.callee_str(f) == "std::fmt::Arguments::<'a>::new")
+    ok = len(fa) == 1
+    detail = "expected one format_args"
+    if ok:
+        a = [M.noref(T.operand(x)) for x in fa[0][1]["args"]]
+        tmpl = decode_fmt(a[0][1]) if a[0][0] == "const" and isinstance(a[0][1], bytes) else None
+        argok = M.contains(a[1], lambda u: u[0] == "call" and u[1] == "std::str::<impl str>::replace")
+        ok = tmpl == [("lit", "'"), ("arg",), ("lit", "'")] and argok
+        detail = "format template %s around the replaced string: %s (must be ' {} ')" % (tmpl, argok)
+    ctx.ob("R19.3", "quoted='...'", ok, de.loc(fa[0][0] if fa else 0), detail)
+    owned = [(bb, si) for bb in de.live_blocks() for si, s in enumerate(de.blocks[bb]["stmts"]) if s["k"] == "assign" and s["p"]["l"] == 0 and s["r"]["k"] == "agg" and s["r"].get("variant") == "Owned"]
+    for bb, si in owned:
+        pay = T.operand(de.blocks[bb]["stmts"][si]["r"]["ops"][0])
+        ctx.ob("R19.3", "owned=formatted", M.contains(pay, lambda u: u[0] == "call" and u[1] == "std::fmt::format"), de.loc(bb, si), "the quoted branch returns the formatted string")
+
+
+def quoted_single_pass(ctx, prog, de, T, s_param, chars_next):
+    """the quoted form built character by character: push('\''), then per character of s either the splice (for ') or the character
+    itself, then push('\'').  Inside single quotes sh takes every character literally except ' — so any other rewriting arm is wrong."""
+    loops = M.sccs(de)
+    loop = next((l for l in loops if any(bb in l for bb, _ in chars_next)), set())
+    drv = [(bb, t) for bb, t in chars_next if bb in loop]
+    ok = len(drv) == 1
+    src_ok = False
+    if ok:
+        it = M.noref(T.operand(drv[0][1]["args"][0]))
+        src_ok = M.contains(it, lambda u: u[0] == "call" and u[1] == "core::str::<impl str>::chars" and M.noref(u[2][0]) == s_param) and not M.contains(
+            it, lambda u: u[0] == "call" and u[1].split("::")[-1] in ("rev", "skip", "take", "filter", "step_by", "skip_while", "take_while"))
+    ctx.ob("R19.3", "single-pass.over-all-chars-in-order", ok and src_ok, de.loc(drv[0][0] if drv else 0), "the quoted form visits s.chars() once, in order, with no skipping adaptor")
+    if not ok:
+        return
+    item = ("field", ("downcast", ("call", M.callee_str(drv[0][1]["f"]), tuple(T.operand(a) for a in drv[0][1]["args"]), drv[0][0]), "Some"), "0")
+    is_c = lambda t: t == item or M.noref(t) == M.noref(item)
+    # the buffer: the String that receives the pushes inside the loop
+    pushes = [(bb, t) for bb, t in de.calls() if M.callee_str(t["f"]) in ("std::string::String::push", "std::string::String::push_str")]
+    bufs = {T.addr(t["args"][0]) for bb, t in pushes}
+    ctx.ob("R19.3", "single-pass.one-buffer", len(bufs) == 1 and None not in bufs, de.loc(pushes[0][0] if pushes else 0), "all pieces go into one String (buffers %s)" % len(bufs))
+    # arms: the switch on the character
+    arms = {}   # literal (or None for the default) -> target block
+    for bb in sorted(loop):
+        t = de.blocks[bb]["term"]
+        if t["k"] == "switch" and is_c(M.switch_term(de, T, bb)):
+            for v, tgt in t["targets"]:
+                arms[v] = tgt
+            arms[None] = t["otherwise"]
+    # comparisons `c == K` (if-chains) are handled as arms as well
+    for k_ in range(0x80):
+        for (bsrc, tgt) in bool_edges(de, T, (lambda k: lambda c: c[0] == "bin" and c[1] == "Eq" and is_c(c[2]) and const_of(c[3]) == k)(k_), True):
+            arms.setdefault(k_, tgt)
+    def emitted(start):
+        """what one arm appends: list of ('lit', str) / ('char',) up to the loop driver"""
+        out = []
+        for bb in sorted(de.reachable(start, stop_blocks=[drv[0][0]]) & loop):
+            t = de.blocks[bb]["term"]
+            if t["k"] != "call":
+                continue
+            nm = M.callee_str(t["f"])
+            if nm == "std::string::String::push_str":
+                v = M.noref(T.operand(t["args"][1]))
+                out.append(("lit", v[1] if v[0] == "const" and isinstance(v[1], str) else None))
+            elif nm == "std::string::String::push":
+                v = T.operand(t["args"][1])
+                k = const_of(v)
+                out.append(("lit", chr(k)) if k is not None else (("char",) if is_c(v) else ("?", M.term_str(v))))
+        return out
+    ctx.ob("R19.3", "single-pass.quote-arm", 0x27 in arms and emitted(arms[0x27]) in [[("lit", x)] for x in SPLICES], de.loc(arms.get(0x27, drv[0][0])),
+           "a ' inside the word is emitted as one of %s (found %s)" % (list(SPLICES), emitted(arms[0x27]) if 0x27 in arms else "no arm for U+0027"))
+    dflt = arms.get(None)
+    ctx.ob("R19.3", "single-pass.default-arm-copies", dflt is not None and emitted(dflt) == [("char",)], de.loc(dflt if dflt is not None else drv[0][0]),
+           "every other character is copied unchanged (found %s)" % (emitted(dflt) if dflt is not None else None))
+    for k_, tgt in sorted((k, v) for k, v in arms.items() if k not in (None, 0x27)):
+        em = emitted(tgt)
+        ctx.ob("R19.3", "single-pass.arm:U+%04X" % k_, em in ([("char",)], [("lit", chr(k_))]), de.loc(tgt),
+               "inside single quotes sh takes U+%04X literally: it must be copied unchanged, but this arm emits %s — the word read back by sh differs" % (k_, em))
+    # opening and closing quote bracket the loop on every path to the Owned return
+    qp = [(bb, t) for bb, t in pushes if M.callee_str(t["f"]) == "std::string::String::push" and const_of(T.operand(t["args"][1])) == 0x27 and bb not in loop]
+    owned = [bb for bb in de.live_blocks() for s_ in de.blocks[bb]["stmts"] if s_["k"] == "assign" and s_["p"]["l"] == 0 and s_["r"]["k"] == "agg" and s_["r"].get("variant") == "Owned"]
+    okq = len(qp) == 2 and bool(owned)
+    if okq:
+        first, last = sorted(qp, key=lambda x: x[0])
+        if first[0] in de.reachable(last[0]):
+            first, last = last, first
+        okq = dominated_by_blocks(de, min(loop), [first[0]]) and last[0] in de.reachable(min(loop)) and all(dominated_by_blocks(de, o, [last[0]]) for o in owned)
+        okq = okq and all(M.contains(T.operand(s_["r"]["ops"][0]), lambda u: True) for o in owned for s_ in de.blocks[o]["stmts"] if s_["k"] == "assign" and s_["p"]["l"] == 0 and s_["r"]["k"] == "agg")
+    ctx.ob("R19.3", "single-pass.quotes-bracket-the-word", okq, de.loc(qp[0][0] if qp else 0), "one ' is pushed before the loop and one after it on every path to Cow::Owned (quote pushes outside the loop: %d)" % len(qp))
+
+
 def run(ctx):
     prog = ctx.prog
     nc = prog.one("display_escape::nice_char")
@@ -178,31 +277,58 @@ def run(ctx):
                "the unquoted form must be used only for a non-empty word: all() over no characters is vacuously true, so \"\" is rendered as nothing and the argument disappears when the line is read by sh")
         ctx.ob("R19.2", "bare-only-if-all-nice", dominated_by_edges(de, bb, all_e) and M.noref(pay) == s_param, de.loc(bb, si), "the unquoted form is the string itself, under all(nice_char)")
 
+    # ---- R19.5 shell reserved words are never emitted bare ---------------------------------------------------------
+    # a word made of safe characters only can still be syntax: in command position sh parses `if`, `for`, `done` ... as
+    # reserved words, not as the name of a program (POSIX XCU 2.4; `!`, `{`, `}` contain unsafe characters and are quoted anyway)
+    RESERVED = ["case", "do", "done", "elif", "else", "esac", "fi", "for", "if", "in", "then", "until", "while"]
+    STR_EQ = ("core::str::traits::<impl std::cmp::PartialEq for str>::eq", "<str as std::cmp::PartialEq>::eq")
+
+    def eq_words(fn_, T_, subj):
+        """(block, word, true-edge target) of every `subj == "word"` test in fn_"""
+        out = []
+        for bb_, t_ in fn_.calls():
+            if M.callee_str(t_["f"]) in STR_EQ or (M.callee_str(t_["f"]).endswith("PartialEq>::eq") and len(t_["args"]) == 2):
+                a_ = [M.noref(T_.operand(x)) for x in t_["args"]]
+                w_ = next((x[1] for x in a_ if x[0] == "const" and isinstance(x[1], str)), None)
+                if w_ is not None and any(M.noref(M.strip(x)) == subj for x in a_):
+                    for (b2, tgt) in bool_edges(fn_, T_, lambda c, bb_=bb_: c[0] == "call" and len(c) > 3 and c[3] == bb_, True):
+                        out.append((bb_, w_, tgt))
+        return out
+
+    def words_accepted_by(g):
+        Tg = M.Terms(g)
+        acc = set()
+        for bb_, w_, tgt in eq_words(g, Tg, ("param", 1, g.local_name(1))):
+            ex_ = M.Explore(g, start=tgt)
+            vals = [s_["r"]["op"].get("int") for b_ in ex_.blocks for s_ in g.blocks[b_]["stmts"]
+                    if s_["k"] == "assign" and s_["p"]["l"] == 0 and not s_["p"]["proj"] and s_["r"]["k"] == "use" and s_["r"]["op"]["k"] == "const"]
+            if vals and all(v == 1 for v in vals):
+                acc.add(w_)
+        return acc
+    bare_blocks = {bb for bb, si in bare}
+    forced = set()
+    for bb_, w_, tgt in eq_words(de, T, s_param):
+        if not (de.reachable(tgt) & bare_blocks):
+            forced.add(w_)
+    for bb_, t_ in de.calls():
+        nm_ = M.callee_str(t_["f"])
+        g_ = prog.fns.get(nm_)
+        if g_ is not None and g_.j.get("output") == "bool" and len(t_["args"]) == 1 and M.noref(M.strip(T.operand(t_["args"][0]))) == s_param:
+            t_e = bool_edges(de, T, lambda c, bb_=bb_: c[0] == "call" and len(c) > 3 and c[3] == bb_, True)
+            if t_e and all(not (de.reachable(e_[1]) & bare_blocks) for e_ in t_e):
+                forced |= words_accepted_by(g_)
+    missing = [w for w in RESERVED if w not in forced]
+    ctx.ob("R19.5", "reserved-words-quoted", not missing, de.loc(bare[0][0] if bare else 0),
+           "a word that is a shell reserved word must take the quoted form: %s are emitted bare, so `Exec::cmd(\"%s\")` prints a line that sh parses as "
+           "syntax instead of running that program (words forced to the quoted form: %s)" % (missing, missing[0] if missing else "", sorted(forced)))
+
     # ---- R19.3 the quoted form -------------------------------------------------------------
     rp = de.calls_to(lambda f: M.callee_str(f) == "std::str::<impl str>::replace")
-    ok = len(rp) == 1
-    detail = "expected one str::replace"
-    if ok:
-        a = [M.noref(T.operand(x)) for x in rp[0][1]["args"]]
-        pat = a[1][1] if a[1][0] == "const" else None
-        rep = a[2][1] if a[2][0] == "const" else None
-        ok = a[0] == s_param and pat == "'" and rep in SPLICES
-        detail = "replace(%r, %r) on %s (pattern must be \"'\", replacement one of %s)" % (pat, rep, M.term_str(a[0]), list(SPLICES))
-    ctx.ob("R19.3", "embedded-quote-splice", ok, de.loc(rp[0][0] if rp else 0), detail)
-    fa = de.calls_to(lambda f: M.callee_str(f) == "std::fmt::Arguments::<'a>::new")
-    ok = len(fa) == 1
-    detail = "expected one format_args"
-    if ok:
-        a = [M.noref(T.operand(x)) for x in fa[0][1]["args"]]
-        tmpl = decode_fmt(a[0][1]) if a[0][0] == "const" and isinstance(a[0][1], bytes) else None
-        argok = M.contains(a[1], lambda u: u[0] == "call" and u[1] == "std::str::<impl str>::replace")
-        ok = tmpl == [("lit", "'"), ("arg",), ("lit", "'")] and argok
-        detail = "format template %s around the replaced string: %s (must be ' {} ')" % (tmpl, argok)
-    ctx.ob("R19.3", "quoted='...'", ok, de.loc(fa[0][0] if fa else 0), detail)
-    owned = [(bb, si) for bb in de.live_blocks() for si, s in enumerate(de.blocks[bb]["stmts"]) if s["k"] == "assign" and s["p"]["l"] == 0 and s["r"]["k"] == "agg" and s["r"].get("variant") == "Owned"]
-    for bb, si in owned:
-        pay = T.operand(de.blocks[bb]["stmts"][si]["r"]["ops"][0])
-        ctx.ob("R19.3", "owned=formatted", M.contains(pay, lambda u: u[0] == "call" and u[1] == "std::fmt::format"), de.loc(bb, si), "the quoted branch returns the formatted string")
+    chars_next = [(bb, t) for bb, t in de.calls() if M.callee_str(t["f"]) == "<std::str::Chars<'a> as std::iter::Iterator>::next"]
+    if not rp and chars_next:
+        quoted_single_pass(ctx, prog, de, T, s_param, chars_next)
+    else:
+        quoted_replace_format(ctx, prog, de, T, s_param, rp)
 
     # ---- R19.4 words and stages in order --------------------------------------------------------
     tc = prog.one("builder::exec::Exec::to_cmdline_lossy")
